@@ -1,4 +1,5 @@
 import Vinegar.Lemmas.Addr
+import Vinegar.Lemmas.AddrGlibc
 /-
 C16 — "Address normalisation transforms are canonical, idempotent and total".
 
@@ -8,7 +9,12 @@ strings (`List Char`), flags and option strings.  IPv4 and MAC are concrete.  IP
 generic transforms are proved for every `L : InetLaw`, i.e. for every pair
 `inet_pton`/`inet_ntop` with  pton (ntop b) = some b  for 16-byte b,  16-byte results, and
 textual addresses containing ':' and no '/';  `inetLaw_satisfiable` shows the assumption is
-consistent (full-form instance), the driver's port of glibc is validated differentially.
+consistent (full-form instance).  The instance the DRIVER runs — the Lean port of glibc's
+`inet_pton6`/`inet_ntop6` (`Glibc.inet`: zero compression, `::a.b.c.d`, `::ffff:a.b.c.d`) — is
+PROVED to satisfy the three laws (`glibc_roundtrip`, `glibc_inetLaw`; `Lemmas/AddrGlibc.lean`),
+so every `_v6`/`_ip` theorem is also stated for it without hypothesis (`…_concrete`).  What stays
+trusted about glibc is only that the real C functions compute what the port computes (compared
+on every string of every case).
 
 Each `…Ok` conjunct says that the Bool spec checker of `Vinegar.Spec.Addr` — the one the
 driver evaluates on what the real implementation returned — accepts the model's output.
@@ -528,6 +534,92 @@ end ip
 round trip, length and shape. -/
 theorem inetLaw_satisfiable : ∃ L : InetLaw, L.pton6 = Full.pton6 ∧ L.ntop6 = Full.print :=
   ⟨Full.law, rfl, rfl⟩
+
+/-! ## the port of glibc that the driver runs satisfies `InetLaw` -/
+
+/-- glibc port — round trip over ALL 2^128 addresses: for every list `b` of sixteen bytes, parsing
+(`inet_pton6`) the text that `inet_ntop6` prints for `b` — full form, any compressed zero run
+(`::` at the front, in the middle, at the end), `::a.b.c.d`, `::ffff:a.b.c.d` — gives `b` back.
+Proved structurally (hexadecimal groups, the zero run chosen by the scan, re-expansion of `::`,
+embedded IPv4 text, 8 words ↔ 16 bytes), not by enumeration. -/
+theorem glibc_roundtrip (b : List UInt8) (hb : b.length = 16) : Glibc.pton6 (Glibc.ntop6 b) = some b :=
+  Glibc.roundtrip b hb
+
+/-- glibc port — the three laws of `InetLaw` hold for the port of `inet_pton6`/`inet_ntop6`
+(for ALL strings `s`): round trip, sixteen-byte results, and a parsed text contains ':' and no
+'/'; packaged as `glibcInetLaw`, whose underlying pair of functions is the driver's `Glibc.inet`. -/
+theorem glibc_inetLaw :
+    (∀ b : List UInt8, b.length = 16 → Glibc.pton6 (Glibc.ntop6 b) = some b) ∧
+    (∀ s b, Glibc.pton6 s = some b → b.length = 16) ∧
+    (∀ s b, Glibc.pton6 s = some b → ':' ∈ s ∧ '/' ∉ s) ∧
+    glibcInetLaw.toInet = Glibc.inet :=
+  ⟨Glibc.roundtrip, fun _ _ h => Glibc.pton6_length16 h, fun _ _ h => Glibc.pton6_shape h, rfl⟩
+
+/-- IPv6 with the glibc port (no hypothesis) — normalising twice equals normalising once. -/
+theorem normalize_idem_v6_concrete (s : Str) (r : Bool) :
+    (∀ o, normalize6 Glibc.inet s r = .ok o → normalize6 Glibc.inet o r = .ok o) ∧
+    idemOk (normalize6 Glibc.inet s r)
+      (match normalize6 Glibc.inet s r with | .ok o => normalize6 Glibc.inet o r | x => x) = true :=
+  normalize_idem_v6 glibcInetLaw s r
+
+/-- IPv6 with the glibc port (no hypothesis) — equal outputs iff the same sixteen bytes and mask. -/
+theorem normalize_canonical_v6_concrete (a b : Str) (pa pb : List UInt8 × Option Nat)
+    (ha : parse6 Glibc.inet a = some pa) (hb : parse6 Glibc.inet b = some pb) (r r' : Bool) :
+    (normalize6 Glibc.inet a r = normalize6 Glibc.inet b r' ↔ pa = pb) ∧
+    canonOk (parse6 Glibc.inet a) (parse6 Glibc.inet b) (normalize6 Glibc.inet a r) (normalize6 Glibc.inet b r') = true :=
+  normalize_canonical_v6 glibcInetLaw a b pa pb ha hb r r'
+
+/-- IPv6 with the glibc port (no hypothesis) — net address and strip-mask satisfy the bit-level
+reference with canonical text. -/
+theorem net_broadcast_strip_spec_v6_concrete (s : Str) (r : Bool) :
+    net6Ok Glibc.inet s (netAddress6 Glibc.inet s r) = true ∧ strip6Ok Glibc.inet s (stripMask6 Glibc.inet s r) = true :=
+  net_broadcast_strip_spec_v6 glibcInetLaw s r
+
+/-- Generic transform with the glibc port (no hypothesis) — text read as `::ffff:x.y.z.t`
+normalises to the IPv4 text `x.y.z.t`. -/
+theorem generic_mapped_to_v4_concrete (s : Str) (r : Bool) :
+    mappedOk Glibc.inet s (normalizeIp Glibc.inet s r) = true ∧
+    (∀ b x y z t, Glibc.pton6 s = some b → b.take 12 = mappedPrefix → b.drop 12 = [x, y, z, t] →
+      normalizeIp Glibc.inet s r = .ok (fmtQuad x.toNat y.toNat z.toNat t.toNat)) :=
+  generic_mapped_to_v4 glibcInetLaw s r
+
+/-- Generic transform with the glibc port (no hypothesis) — normalising twice equals normalising once. -/
+theorem normalize_idem_ip_concrete (s : Str) (r : Bool) :
+    (∀ o, normalizeIp Glibc.inet s r = .ok o → normalizeIp Glibc.inet o r = .ok o) ∧
+    idemOk (normalizeIp Glibc.inet s r)
+      (match normalizeIp Glibc.inet s r with | .ok o => normalizeIp Glibc.inet o r | x => x) = true :=
+  normalize_idem_ip glibcInetLaw s r
+
+/-- Generic transform with the glibc port (no hypothesis) — equal outputs iff equal denoted values. -/
+theorem normalize_canonical_ip_concrete (a b : Str) (va vb : IpVal)
+    (ha : parseIp Glibc.inet a = some va) (hb : parseIp Glibc.inet b = some vb) (r r' : Bool) :
+    (normalizeIp Glibc.inet a r = normalizeIp Glibc.inet b r' ↔ va = vb) ∧
+    canonOk (parseIp Glibc.inet a) (parseIp Glibc.inet b) (normalizeIp Glibc.inet a r) (normalizeIp Glibc.inet b r') = true :=
+  normalize_canonical_ip glibcInetLaw a b va vb ha hb r r'
+
+/-- Generic transform with the glibc port (no hypothesis) — malformed input comes back unchanged
+or as ValueError iff requested. -/
+theorem malformed_unchanged_ip_concrete (s : Str) (r : Bool) :
+    malformedOk (parseIp Glibc.inet s).isSome r s (normalizeIp Glibc.inet s r) = true ∧
+    malformedOk (wellFormedIpM Glibc.inet s) r s (netAddressIp Glibc.inet s r) = true ∧
+    malformedOk (parseIpPlain Glibc.inet s).isSome r s (stripMaskIp Glibc.inet s r) = true :=
+  malformed_unchanged_ip glibcInetLaw s r
+
+/-- Generic transform with the glibc port (no hypothesis) — net address and strip-mask satisfy the
+reference of the family the text is dispatched to. -/
+theorem net_broadcast_strip_spec_ip_concrete (s : Str) (r : Bool) :
+    netIpOk Glibc.inet s (netAddressIp Glibc.inet s r) = true ∧
+    stripIpOk Glibc.inet s (stripMaskIp Glibc.inet s r) = true :=
+  net_broadcast_strip_spec_ip glibcInetLaw s r
+
+/-- the port really prints the compressed and the embedded-IPv4 forms the round trip covers -/
+example : Glibc.ntop6 [0x20, 0x01, 0x0d, 0xb8, 0, 0, 0, 0, 0, 0, 0, 0, 0, 0, 0, 1] = "2001:db8::1".toList := by decide
+example : Glibc.ntop6 [0, 0, 0, 0, 0, 0, 0, 0, 0, 0, 0, 0, 1, 2, 3, 4] = "::1.2.3.4".toList := by decide
+example : Glibc.ntop6 [0, 0, 0, 0, 0, 0, 0, 0, 0, 0, 0xff, 0xff, 1, 2, 3, 4] = "::ffff:1.2.3.4".toList := by decide
+example : Glibc.ntop6 [0, 1, 0, 0, 0, 0, 0, 2, 0, 0, 0, 0, 0, 0, 0, 0] = "1:0:0:2::".toList := by decide
+example : Glibc.pton6 "::ffff:1.2.3.4".toList = some [0, 0, 0, 0, 0, 0, 0, 0, 0, 0, 0xff, 0xff, 1, 2, 3, 4] := by decide
+example : Glibc.pton6 "1::2:3:4:5:6:7:8".toList = none ∧ Glibc.pton6 "1.2.3.4".toList = none
+    ∧ Glibc.pton6 "::1/64".toList = none := by decide
 
 /-- hypotheses of the canonicity theorems are satisfiable, and the model computes what the
 pinned test-suite expects -/
